@@ -158,7 +158,10 @@ Definition exec_fault (bufsz : nat) (fk : fkind) (o : op) (s : fsys) : fsys :=
   match fk, o with
   | FShort c, Write p bs => exec_ok bufsz (Write p bs) s   (* c bytes, then the loop writes the rest *)
   | FShort c, Fwrite p bs => exec_ok bufsz (Fwrite p (firstn c bs)) s
-  | _, Fclose p => mkfs (files s) (dirs s) (upd (pend s) p None)  (* the final flush failed: buffer lost *)
+  | _, Fclose p => match pend s p with       (* the final flush failed: buffer lost *)
+                   | Some _ => mkfs (files s) (dirs s) (upd (pend s) p None)
+                   | None => s               (* FILE open for reading: nothing to lose *)
+                   end
   | _, _ => s
   end.
 
@@ -173,15 +176,18 @@ Definition flag_eqb (a b : flag) : bool :=
   | _, _ => false
   end.
 
-Record instr := mki {
+Record instr := mki8 {
   i_tid : Z;               (* thread whose control flags it uses (0: process level) *)
   i_op : op;
   i_guard : list flag;     (* executed only if all these flags are set *)
   i_set : list flag;       (* flags set when the call succeeds *)
+  i_unset : list flag;     (* flags cleared when the call succeeds (after i_set) *)
   i_die : bool;            (* on failure: die() *)
   i_diag : bool;           (* on failure: a diagnostic is printed (die/err/warn) *)
   i_clear : list flag      (* on failure: flags cleared (return -1 / break / ret = 1) *)
 }.
+Definition mki (t : Z) (o : op) (g st : list flag) (die dg : bool) (cl : list flag) : instr :=
+  mki8 t o g st [] die dg cl.
 
 Definition idie (t : Z) (o : op) : instr := mki t o [] [] true true [].
 Definition iign (t : Z) (o : op) : instr := mki t o [] [] false false [].
@@ -260,12 +266,13 @@ Definition copy_new (t : Z) (g : list flag) (f : fname) (data : list Z) : list i
       mki t (Fclose dst) (g ++ [FInOpen; FOutOpen]) [] false true [FMoveOk];
       mki t (Fclose src) (g ++ [FInOpen]) [] false false []].
 
-(* move_thdir_step(thdir, thdir_final, step): pass 0 = copy data, 1 = copy metadata, 2 = remove *)
+(* move_thdir_step(thdir, thdir_final, step): pass 0 = copy data, 1 = copy metadata, 2 = remove.
+   Passes 1 and 2 are entered only if nothing failed before (FMoveOk); closedir ends the pass. *)
 Definition pass_new (rho : order) (th : thread) (p : nat) : list instr :=
   let t := th_tid th in
   let d := PThread Tmp t in
   let gm := match p with O => [] | _ => [FMoveOk] end in
-  let g := gm ++ [FDirOpen; FDirOk] in
+  let g := [FDirOpen; FDirOk] in
   let body (e : entry) : list instr :=
     match e, p with
     | EFile Obs, O => copy_new t g Obs (file_data th Obs)
@@ -277,7 +284,7 @@ Definition pass_new (rho : order) (th : thread) (p : nat) : list instr :=
        false true [FDirOpen; FMoveOk]]
   ++ flat_map (fun e => mki t (Readdir d (Some e)) g [] false true [FDirOk; FMoveOk] :: body e) (rho t p)
   ++ [mki t (Readdir d None) g [] false true [FDirOk; FMoveOk];
-      mki t (Closedir d) (gm ++ [FDirOpen]) [] false false []].
+      mki8 t (Closedir d) [FDirOpen] [] [FDirOpen; FDirOk] false false [FDirOpen; FDirOk]].
 
 Definition relocate_new (rho : order) (th : thread) : list instr :=
   pass_new rho th 0 ++ pass_new rho th 1 ++ pass_new rho th 2.
@@ -311,7 +318,7 @@ Definition relocate_old (rho : order) (th : thread) : list instr :=
   [mki t (Opendir d) [] [FDirOpen; FDirOk] false true [FDirOpen]]
   ++ flat_map (fun e => mki t (Readdir d (Some e)) g [] false false [FDirOk] :: body e) (rho t 0%nat)
   ++ [mki t (Readdir d None) g [] false false [FDirOk];
-      mki t (Closedir d) [FDirOpen] [] false false []].
+      mki8 t (Closedir d) [FDirOpen] [] [FDirOpen; FDirOk] false false [FDirOpen; FDirOk]].
 
 Definition relocate (v : variant) (rho : order) (th : thread) : list instr :=
   match v with New => relocate_new rho th | Old => relocate_old rho th end.
@@ -363,17 +370,22 @@ Definition m0 : mstate := mkm fs0 (fun _ _ => false) false false [].
 Definition guard_ok (fl : flag -> bool) (g : list flag) : bool := forallb fl g.
 
 Definition setfl (fl : Z -> flag -> bool) (t : Z) (l : list flag) (v : bool) : Z -> flag -> bool :=
-  fun t' f => if (t' =? t) && existsb (flag_eqb f) l then v else fl t' f.
+  match l with
+  | [] => fl
+  | _ => fun t' f => if (t' =? t) && existsb (flag_eqb f) l then v else fl t' f
+  end.
 
 Definition step (bufsz : nat) (fault : option fkind) (i : instr) (s : mstate) : mstate :=
   match fault with
-  | None => mkm (exec_ok bufsz (i_op i) (m_fs s)) (setfl (m_fl s) (i_tid i) (i_set i) true)
+  | None => mkm (exec_ok bufsz (i_op i) (m_fs s))
+                (setfl (setfl (m_fl s) (i_tid i) (i_set i) true) (i_tid i) (i_unset i) false)
                 (m_diag s) (m_dead s) (i_op i :: m_log s)
   | Some fk =>
     if is_failure fk (i_op i)
     then mkm (exec_fault bufsz fk (i_op i) (m_fs s)) (setfl (m_fl s) (i_tid i) (i_clear i) false)
              (m_diag s || i_diag i) (i_die i) (i_op i :: m_log s)
-    else mkm (exec_fault bufsz fk (i_op i) (m_fs s)) (setfl (m_fl s) (i_tid i) (i_set i) true)
+    else mkm (exec_fault bufsz fk (i_op i) (m_fs s))
+             (setfl (setfl (m_fl s) (i_tid i) (i_set i) true) (i_tid i) (i_unset i) false)
              (m_diag s) (m_dead s) (i_op i :: m_log s)
   end.
 
@@ -494,10 +506,11 @@ Definition c09_s2_ok (s : fsys) (P : program) (fl : Z -> list Z) : bool :=
         | None => false
         end)) P.
 
+(* the trace directory the emulator is given is the final one ($OVNI_TRACEDIR) *)
 Definition C09_sentence1 (bufsz : nat) (m : mode) (P : program) (rho : order) : Prop :=
-  forall k l t, let s := apply_prefix bufsz k (trace_of_program m P rho) in
-    emu_ok s l (tids P) = true -> In t (tids P) -> visible s l t = true ->
-    is_prefix (flushed m P rho k t) (content s (PFile l t Obs)) = true.
+  forall k t, let s := apply_prefix bufsz k (trace_of_program m P rho) in
+    emu_ok s Fin (tids P) = true -> In t (tids P) -> visible s Fin t = true ->
+    is_prefix (flushed m P rho k t) (content s (PFile Fin t Obs)) = true.
 
 Definition C09_sentence2 (bufsz : nat) (m : mode) (P : program) (rho : order) : Prop :=
   forall k th, let s := apply_prefix bufsz k (trace_of_program m P rho) in
